@@ -1,4 +1,5 @@
 import TcheranVerif.Proofs.MagicCert
+import TcheranVerif.Proofs.Sweep.S03  -- only to bound how many parts are checked at once (≈8 GB each)
 /-! C07 sweep, part 7: rook squares [8, 15] — decided by the kernel alone -/
 namespace Tcheran.Sweep
 
